@@ -1900,6 +1900,7 @@ package gomatrixserverlib
 //@   ensures resumes-inside-the-string: index < result[1] && result[1] <= len(input) && lxStr(str(input), result[1]) && !lxEsc(str(input), result[1])
 //@   ensures input-untouched: str(input) == old(str(input)) && ref(result[0]) != ref(input)
 //@   ensures output-only-grows: len(result[0]) >= old(len(output)) && (forall k int :: 0 <= k && k < old(len(output)) ==> result[0][k] == old(output[k]))
+//@   ensures a-code-point-that-needs-no-escape-goes-to-the-utf8-encoder: (len(input) - index >= 4 && called(readHexDigits) && ncalls(readHexDigits) == 1 && ret(readHexDigits) >= 32 && ret(readHexDigits) != 92 && ret(readHexDigits) != 34 && !(55296 <= ret(readHexDigits) && ret(readHexDigits) < 57344)) ==> (called(EncodeRune) && arg(EncodeRune, 1) == ret(readHexDigits))
 
 // ---------------------------------------------------------------- C14: federation verification
 
@@ -2322,6 +2323,8 @@ package gomatrixserverlib
 //@   loop 2: invariant 0 <= i && i <= len(input) && lxStr(old(str(input)), i) && !lxEsc(old(str(input)), i) && str(input) == old(str(input)) && ref(output) != ref(input)
 //@   loop 2: invariant len(output) > athead(1, len(output)) && output[athead(1, len(output))] == 34
 //@   loop 1: step sign-kept-unless-it-begins-the-number-minus-zero: (old(input[i]) == 45 && !(input[old(i)+1] == 48 && !(old(i)+2 < len(input) && (input[old(i)+2] == 46 || input[old(i)+2] == 101 || input[old(i)+2] == 69)) && !(old(i) >= 1 && (input[old(i)-1] == 101 || input[old(i)-1] == 69)))) ==> (len(output) > old(len(output)) && output[old(len(output))] == 45)
+//@   loop 1: step the-sign-of-a-lone-minus-zero-is-dropped: (old(input[i]) == 45 && input[old(i)+1] == 48 && !(old(i)+2 < len(input) && (input[old(i)+2] == 46 || input[old(i)+2] == 101 || input[old(i)+2] == 69)) && !(old(i) >= 1 && (input[old(i)-1] == 101 || input[old(i)-1] == 69))) ==> (len(output) == old(len(output)) && i == old(i) + 1)
+//@   loop 1: step whitespace-outside-strings-is-dropped: old(input[i]) <= 32 ==> (len(output) == old(len(output)) && i == old(i) + 1)
 //@   loop 1: step other-bytes-outside-strings-are-kept: (old(input[i]) > 32 && old(input[i]) != 45) ==> (len(output) > old(len(output)) && output[old(len(output))] == old(input[i]))
 
 // ---------------------------------------------------------------- C19: the key-fetching worker pool
